@@ -1457,6 +1457,8 @@ class Interp:
         if isinstance(b, NT):
             if attr in b.names:
                 return b.get(attr)
+            if attr == "_fields":
+                return Tup(tuple(Const(n_) for n_ in b.names))
             ci = self.P.cls(b.cls)
             f = ci.lookup(attr)
             if f is not None:
@@ -1503,6 +1505,8 @@ class Interp:
                 return self.eval_in_class(k, e)
             if attr == "__name__":
                 return Const(ci.name)
+            if attr == "_fields" and ci.is_namedtuple:
+                return Tup(tuple(Const(n_) for n_ in ci.annotations))
             return Unk(f"{ci.name}.{attr}")
         if isinstance(b, SuperV):
             f = b.dyncls.lookup(attr, after=b.after) if b.dyncls is not None else None
